@@ -854,6 +854,9 @@ type VTimer struct {
 	fired  int
 	Obj    *Obj
 	name   string
+	// Inline timers run f on the scheduler (no goroutine): channel timers (time.NewTimer / After)
+	Inline bool
+	Period int64 // > 0: re-arms itself (tickers)
 }
 
 func NewTimer(d int64, name string, f func()) *VTimer {
@@ -897,6 +900,13 @@ func (x *Exec) fireTimers() {
 		if t.active && t.when <= x.Now {
 			t.active = false
 			t.fired++
+			if t.Inline {
+				t.f()
+				if t.Period > 0 {
+					t.when, t.active = x.Now+t.Period, true
+				}
+				continue
+			}
 			save := x.cur
 			x.cur = nil
 			th := x.spawn(fmt.Sprintf("%s#%d.%d", t.name, t.id, t.fired), t.f)
